@@ -1075,11 +1075,11 @@ def directed_search(ck, bad, budget):
         cur, other = tag.split(':', 1)[1].split('|')
         base = [tuple(tuple(x) if isinstance(x, list) else x for x in o) for o in ops]
         hit = False
-        for ext in around:
+        # every proper prefix first (a later operation may repair what an earlier one broke), then the one-operation extensions
+        for seq in [base[:k] for k in range(1, len(base))] + [base + list(ext) for ext in around]:
             if time.time() - t0 > budget:
                 ck.count('directed:budget-exhausted')
                 return found
-            seq = base + list(ext)
             w = fresh_world(cur, other)
             hook = SearchHook()
             try:
@@ -1131,6 +1131,23 @@ def search_stereo_and_reactions(ck):
                 else:
                     status[ops] = 'clean'
                     ck.count('search:stereo:clean-sequences')
+    # transactions: enter, two operations (setters, structural edits, renumbering, a read), then commit or roll back, then a look
+    body = [READ_STR, ('set_charge', 3, -1), ('set_radical', 2, True), ('add_atom', 7, 0, False, None), ('delete_atom', 3), ('add_bond', 1, 3, 1),
+            ('delete_bond', 2, 3), ('remap', ((1, 9),)), ('remap', ((3, 7), (2, 3))), ('patch', 1, 2, 2, 0), ('add_bond', 1, 3, 8)]
+    for cur, other in (('CCO', 'CN'), ('C1CC1C', 'CN')):
+        for mid in itertools.product(body, repeat=2):
+            for end in (('exit_ok',), ('exit_exn',)):
+                ops = (('enter',),) + mid + (end,)
+                w = fresh_world(cur, other)
+                hook = SearchHook()
+                run_ops(w, ops, hook)
+                ff = final_findings(w, hook)
+                ck.case(('txn', cur, ops), nontrivial=True)
+                if hook.findings or ff:
+                    i = hook.findings[0][0] if hook.findings else len(ops) - 1
+                    report(ck, cur, other, list(ops[:i + 1]), [f for f in hook.findings if f[0] == i], [] if hook.findings else ff, 'transaction seeds')
+                else:
+                    ck.count('search:txn:clean-sequences')
     # reactions
     for rs in ('CC(=O)O.OCC>>CC(=O)OCC.O', 'C=C>[Pt]>CC'):
         r = smiles(rs)
